@@ -101,6 +101,9 @@ func respFor(tag string, streamId int16, size int) *frame.Frame {
 func tagOf(f *frame.Frame) (string, []byte) {
 	switch m := f.Body.Message.(type) {
 	case *message.RowsResult:
+		if len(m.Metadata.PagingState) == 0 && len(m.Data) == 2 && len(m.Data[0]) == 1 && len(m.Data[1]) == 1 {
+			return string(m.Data[1][0]), m.Data[0][0] // page without paging state (ids.go pageFor)
+		}
 		if len(m.Data) == 1 && len(m.Data[0]) == 1 {
 			return string(m.Metadata.PagingState), m.Data[0][0]
 		}
